@@ -210,8 +210,11 @@ def eocd_rules(ctx, facts, rep, rule="C08-EOCD"):
         raise AnchorLost("no path skipping the ZIP64 end records")
     bthr, _ = const_val(facts, "::ZIP64_BYTES_THR")
     ethr, _ = const_val(facts, "::ZIP64_ENTRY_THR")
-    covered = {"count": False, "size": False, "start": False}
+    covered = {"count": True, "size": True, "start": True}
+    # EVERY way of skipping the ZIP64 records must have established all three bounds (`a || b` skips on !a && !b; with `a && b` there are
+    # two ways to skip and each of them knows only half)
     for j in cands:
+        covered_all, covered = covered, {"count": False, "size": False, "start": False}
         fs = [x for x in dominating_facts(fz, ex, j) if x[0] != "truth"]
         for (op, x, y) in fs:
             cv = y[2] if y[0] in ("const", "named") else None
@@ -229,6 +232,7 @@ def eocd_rules(ctx, facts, rep, rule="C08-EOCD"):
                         covered["size"] = True
                     elif any(q[0] == "call" and q[1].endswith("stream_position") for q in walk(p)) and not (p[0] == "bin"):
                         covered["start"] = True
+        covered = {k_: covered_all[k_] and covered[k_] for k_ in covered}
     if not all(covered.values()):
         # the same condition held in a boolean local (`let needs_zip64 = a || b || c; if needs_zip64 {..}`): decide it on the paths that
         # reach the end record without writing the ZIP64 records -- each of them must have found count, size and start within range
